@@ -43,6 +43,12 @@ type runner struct {
 	plain bool
 	// values returned so far by this case's transformers
 	results []earlier
+	// while building a fill: the padding of the text written for
+	// text-unmarshalable leaves, and whether some padded text is rejected by
+	// its type's own UnmarshalText (reverse translation must then fail)
+	pad            int
+	rejected       bool
+	expectedErrors int
 }
 
 func viol(key, format string, a ...any) *vrt.Verdict {
@@ -201,9 +207,13 @@ func (r *runner) forwardElem(src, wroot, dst reflect.Value, children []*mfield) 
 			if !sv.IsValid() {
 				return fmt.Errorf("element has no field %v", c.origin)
 			}
-			tv, w, err := forwardLeaf(sv, c, r.c.DupSets)
+			tv, w, rej, err := forwardLeaf(sv, c, r.c.DupSets, r.pad)
 			if err != nil {
 				return err
+			}
+			if rej {
+				r.rejected = true
+				w = sv
 			}
 			dst.Field(idx).Set(tv)
 			byPath(wroot, c.origin).Set(w)
@@ -282,12 +292,21 @@ func (r *runner) write(root, exp reflect.Value, tl tleaf, fe FillEntry) error {
 			v0 = ev
 		}
 	}
+	if fe.ZeroMember && !hasConv(f, "strcast") && hasSet(f.otype, 0) {
+		// (the text form of a string cast cannot spell an empty member)
+		v0 = addZeroSetMembers(v0)
+	}
+	r.pad = fe.Pad
 	var tv, want reflect.Value
 	var err error
 	if f.kind == kSliceStruct {
 		tv, want, err = r.forwardSliceStruct(v0, f, slot.Type())
 	} else {
-		tv, want, err = forwardLeaf(v0, f, r.c.DupSets)
+		var rej bool
+		tv, want, rej, err = forwardLeaf(v0, f, r.c.DupSets, fe.Pad)
+		if rej {
+			r.rejected = true
+		}
 	}
 	if err != nil {
 		return err
@@ -360,6 +379,13 @@ func (r *runner) reverse(v reflect.Value) (out reflect.Value, err error, panicke
 // known defect class.
 func (r *runner) classify(filled map[string]bool, msg, fallback string) string {
 	ch := r.c.Chain
+	if ch.has("textunm") && strings.Contains(msg, "panic") {
+		for _, ol := range r.md.origins {
+			if t := ol.otype; t.Kind() == reflect.Pointer && t.Elem().Kind() == reflect.Pointer && t.Elem().Implements(textUnmarshalerT) {
+				return keyPtrPtrText
+			}
+		}
+	}
 	if ch.has("anonflatten") && strings.Contains(msg, "index out of range") {
 		for _, ol := range r.md.origins {
 			if filled[ol.path] && ol.otype.Kind() == reflect.Slice && embedsTrailingUnexported(ol.otype.Elem()) {
@@ -399,6 +425,7 @@ func (r *runner) build(fills []FillEntry, what string) (tv, exp reflect.Value, f
 	tv = reflect.New(r.tt).Elem()
 	exp = reflect.New(r.t0).Elem()
 	filled = map[string]bool{}
+	r.rejected = false
 	for _, fe := range fills {
 		tl, ok := r.md.pick(fe.Path, r.c.Sides)
 		if !ok {
@@ -450,6 +477,19 @@ func (r *runner) roundTrip(fills []FillEntry, what string) *vrt.Verdict {
 	tv, exp, filled, bad := r.build(fills, what)
 	if bad != nil {
 		return bad
+	}
+	if r.rejected {
+		// some written text is rejected by its type's own UnmarshalText:
+		// the reverse translation must report an error, never a value
+		_, err, panicked := r.reverse(tv)
+		if err == nil {
+			return viol("rejected-text-accepted", "%s: a text-unmarshalable leaf was written a text with surrounding whitespace that its own UnmarshalText rejects, yet ReverseTranslate returned a value; filled %v", what, shape.SortedKeys(filled))
+		}
+		if panicked {
+			return viol(r.classify(filled, err.Error(), "reverse-panic"), "%s: ReverseTranslate panicked on a text its type rejects: %v", what, err)
+		}
+		r.expectedErrors++
+		return nil
 	}
 	got, err, panicked := r.reverse(tv)
 	if err != nil {
@@ -747,6 +787,30 @@ func runC10(c Case) vrt.Verdict {
 			}
 		}
 	}
+	for _, fe := range append(append([]FillEntry{}, c.Fill...), c.Fill2...) {
+		tl, ok := md.pick(fe.Path, c.Sides)
+		if !ok {
+			continue
+		}
+		if fe.Pad > 0 && hasTextConv(tl.f) {
+			labels = append(labels, "filled:text-with-surrounding-whitespace")
+			if fe.Pad == 3 {
+				labels = append(labels, "filled:whitespace-only-text")
+			}
+		}
+		if fe.ZeroMember && !hasConv(tl.f, "strcast") && hasSet(tl.f.otype, 0) {
+			labels = append(labels, "filled:set-with-zero-member")
+			if hasConv(tl.f, "set2slice") || tl.f.kind == kSliceStruct && c.Chain.has("setslice") {
+				labels = append(labels, "filled:set-with-zero-member-through-set2slice")
+				if fe.Empty && tl.f.kind == kLeaf {
+					labels = append(labels, "filled:set-of-only-zero-through-set2slice")
+				}
+			}
+		}
+	}
+	if r.expectedErrors > 0 {
+		labels = append(labels, "expected-error:padded-text-rejected-by-its-type")
+	}
 	arrInElem := false
 	for _, fe := range append(append([]FillEntry{}, c.Fill...), c.Fill2...) {
 		if tl, ok := md.pick(fe.Path, c.Sides); ok && tl.f.kind == kSliceStruct && !fe.Empty {
@@ -863,11 +927,19 @@ func runC10(c Case) vrt.Verdict {
 		labels = append(labels, "filled:depth>=3")
 	}
 	nt := len(c.Chain.all()) >= 2 && (nesting || aliasBeforeNested)
-	return vrt.OK(nt, labels...)
+	seenLabel := map[string]bool{}
+	uniq := labels[:0]
+	for _, l := range labels {
+		if !seenLabel[l] {
+			seenLabel[l] = true
+			uniq = append(uniq, l)
+		}
+	}
+	return vrt.OK(nt, uniq...)
 }
 
 const c10Rule = "a config struct type from the full shape grammar (scalars, durations, text-unmarshalable and named types, slices, arrays, maps, sets, user pointers, nested / pointer / embedded structs incl. embedded types with tagged and aliased fields, slices of structs, skipped fields; depth<=3, <=8 fields per struct) with generated dials / alias / source-specific / format tags whose words are known by construction; T0 = Pointerify(T); " +
-	"%s; embeddable types include structs with 2..3 differently typed nested struct members by value and by pointer between scalar leaves (hoisting them gives one input field several struct-typed outputs; leaves are filled in none / only non-last / some / all of them) and structs with unexported fields in first, middle and last position; slices of structs include elements that embed structs by value with unexported fields in first and middle position and with nested struct members (elements are not pointerified; the element with an unexported field in LAST position is generated only with VERIF_C10_TRAILING_UNEXPORTED=1 while finding anonflatten-trailing-unexported is open); leaf types include maps of a NAMED empty struct (map[string]Unit, map[int]Unit, *map[string]Unit), which are not sets: the set->slice mangler leaves them alone and they reverse unchanged; leaf types include maps whose KEY type is time.Duration (map[Duration]string, map[Duration][]int, map[Duration]Duration, map[Duration][]Duration, map[Duration]map[string]Duration, []map[Duration]int, *map[Duration]string, map[string]map[Duration]int), always filled with 1..3 entries, so that the Duration substitution has to translate and reverse map keys alone and together with values; embeddable types also nest: two and three levels of embedding, by value and by pointer at each level, with leaves at every level (anonymous-flatten hoists ONE level per struct: the inner embedded struct stays an embedded field of the level it was hoisted to, and its own embedded structs are hoisted into it); elements of slices of structs also have ARRAYS of structs not behind a pointer ([2]NestA, [3]Leafy with a set and a duration, different values per slot), which every recursing mangler is applied to slot by slot; slices of structs also have elements with pointer-to-struct members and a nested value struct holding one ([]Node, 0..3 elements with different values; one sub-transformer serves all elements); TWO independent fills are reverse-translated one after the other by the same transformers (after the all-empty value), each judged on its own, then every earlier result is judged again against a freshly built expectation (a later ReverseTranslate must not change a value returned earlier: key earlier-result-mutated) and must be address-disjoint from the new result including the returned struct itself (key results-share-memory); a subset of the original leaves is written THROUGH their translated counterparts (values from seeds, converted forward by the model: set->slice, Duration->ParsingDuration, own text rendering for string casts, the type's own MarshalText for text-unmarshalers), for every aliased field through either the primary or the alias copy; in 3 of 4 cases every slice written into the translated value (top level, inside maps / pointers / arrays, inside elements of slices of structs) carries 1..3 elements of spare capacity holding junk, as append-grown decoder output does; with probability 3/8 a written leaf takes its EMPTY value instead of the seeded one -- the empty string for string leaves (through a string cast: a translated *string pointing to \"\", which must reverse to a non-nil pointer to \"\", not to an unset leaf) and a non-nil empty slice / map / set for collections (text \"\" through a string cast). " +
+	"%s; embeddable types include structs with 2..3 differently typed nested struct members by value and by pointer between scalar leaves (hoisting them gives one input field several struct-typed outputs; leaves are filled in none / only non-last / some / all of them) and structs with unexported fields in first, middle and last position; slices of structs include elements that embed structs by value with unexported fields in first and middle position and with nested struct members (elements are not pointerified; the element with an unexported field in LAST position is generated only with VERIF_C10_TRAILING_UNEXPORTED=1 while finding anonflatten-trailing-unexported is open); leaf types include maps of a NAMED empty struct (map[string]Unit, map[int]Unit, *map[string]Unit), which are not sets: the set->slice mangler leaves them alone and they reverse unchanged; leaf types include maps whose KEY type is time.Duration (map[Duration]string, map[Duration][]int, map[Duration]Duration, map[Duration][]Duration, map[Duration]map[string]Duration, []map[Duration]int, *map[Duration]string, map[string]map[Duration]int), always filled with 1..3 entries, so that the Duration substitution has to translate and reverse map keys alone and together with values; embeddable types also nest: two and three levels of embedding, by value and by pointer at each level, with leaves at every level (anonymous-flatten hoists ONE level per struct: the inner embedded struct stays an embedded field of the level it was hoisted to, and its own embedded structs are hoisted into it); elements of slices of structs also have ARRAYS of structs not behind a pointer ([2]NestA, [3]Leafy with a set and a duration, different values per slot), which every recursing mangler is applied to slot by slot; slices of structs also have elements with pointer-to-struct members and a nested value struct holding one ([]Node, 0..3 elements with different values; one sub-transformer serves all elements); TWO independent fills are reverse-translated one after the other by the same transformers (after the all-empty value), each judged on its own, then every earlier result is judged again against a freshly built expectation (a later ReverseTranslate must not change a value returned earlier: key earlier-result-mutated) and must be address-disjoint from the new result including the returned struct itself (key results-share-memory); leaf types include a string-like text type whose UnmarshalText keeps any text verbatim (Label; also inside slice elements) and integer-keyed sets; with probability 1/2 the text written for text-unmarshalable leaves (top level, nested, inside slice elements) gets surrounding whitespace (trailing blank / leading tab + trailing newline / whitespace only): the expected value is what the type's OWN UnmarshalText makes of exactly that text (kept verbatim for string-like types), and if the type itself rejects it (time.Time, net.IP, a missing prefix) ReverseTranslate must return an error, never a value (key rejected-text-accepted); with probability 1/2 every set in a written value (the leaf, sets inside elements and nested structs, string and integer keys) also holds the key type's zero value, combined with the empty value the set is exactly {zero}; a subset of the original leaves is written THROUGH their translated counterparts (values from seeds, converted forward by the model: set->slice, Duration->ParsingDuration, own text rendering for string casts, the type's own MarshalText for text-unmarshalers), for every aliased field through either the primary or the alias copy; in 3 of 4 cases every slice written into the translated value (top level, inside maps / pointers / arrays, inside elements of slices of structs) carries 1..3 elements of spare capacity holding junk, as append-grown decoder output does; with probability 3/8 a written leaf takes its EMPTY value instead of the seeded one -- the empty string for string leaves (through a string cast: a translated *string pointing to \"\", which must reverse to a non-nil pointer to \"\", not to an unset leaf) and a non-nil empty slice / map / set for collections (text \"\" through a string cast). " +
 	"Oracle: a descriptor-level model of each mangler gives every translated field its documented key (flattened dials / dialsenv / dialsflag / dialspflag tag, json / yaml / toml tag or Go name per nesting level, alias value for alias copies), type and conversion; translated fields are located by that key only; required: TranslateType yields exactly the model's key set and leaf types at every level, the reverse-translated value has type T0, each written leaf holds the value converted back, every other leaf is nil, parent pointers are allocated iff a leaf below is set, and an all-empty translated value reverses to an all-nil T0. " +
 	"non-trivial = chain length >= 2 and the shape has nesting (or an aliased field before a nested one); distinct = distinct case JSON"
 
